@@ -16,7 +16,7 @@ ANCHORS = ['phylib.io.traces:BaseEphysReader._append_op', 'phylib.io.traces:Base
            'phylib.io.traces:BaseEphysReader.__rtruediv__', 'phylib.io.traces:BaseEphysReader.__rfloordiv__',
            'phylib.io.traces:BaseEphysReader.__neg__', 'phylib.io.traces:BaseEphysReader.__pos__']
 RULE = ('A program is a sequence of operators from {pos, neg, add, radd, sub, rsub, mul, rmul, truediv, '
-        'rtruediv, floordiv, rfloordiv, pow, rpow} x scalars {2, 3, -3, 0.5, 2.0, -1.5 and the neutral elements 0, 1, 0.0, 1.0 (Python int/float); '
+        'rtruediv, floordiv, rfloordiv, pow, rpow} x scalars {2, 3, -3, -2, -4, -1, 0.5, 2.0, -1.5, 1.1 and the neutral elements 0, 1, 0.0, 1.0 (Python int/float); '
         'np.float32(2), np.int16(3), np.float64(1), np.int64(0) on the right} and whole-recording column selections (slice, list, '
         'permutation, negative / reversed forms). It is built twice with the Python operators, on the reader and on the loaded '
         'array, then indexed with 4 row items; values+dtype must agree (NaN-aware) or both must raise '
@@ -45,7 +45,7 @@ NC = 5
 UNARY = ['pos', 'neg']
 BINARY = ['add', 'radd', 'sub', 'rsub', 'mul', 'rmul', 'truediv', 'rtruediv', 'floordiv', 'rfloordiv',
           'pow', 'rpow']
-PYSCAL = [2, 3, -3, 0.5, 2.0, -1.5, 0, 1, 0.0, 1.0]
+PYSCAL = [2, 3, -3, 0.5, 2.0, -1.5, 0, 1, 0.0, 1.0, -2, -4, -1, 1.1]
 NPSCAL = [('f4', 2), ('i2', 3), ('f8', 1), ('i8', 0)]
 COLS = [('slice', [1, None]), ('list', [2, 0]), ('perm', [1, 2, 0]),
         # width-relative forms: they mean something else once an earlier selection has narrowed the recording
